@@ -40,3 +40,5 @@ except Exception:
     allres = {}
 allres.update(out)
 json.dump(allres, open(rp, "w"), indent=1, sort_keys=True)
+# the generated Lean files must describe the restored tree again
+subprocess.run([sys.executable, os.path.join(V, "tools", "regen.py")], capture_output=True)
